@@ -269,7 +269,7 @@ def _is_type_new_type(type_: Any) -> bool:
     if type(type_) == typing.NewType:
         return True
 
-    return type_.__qualname__ == NewType('name', int).__qualname__  # arguments of NewType() are arbitrary here
+    return False  # typing.NewType is a class since Python 3.10 (a class that is called `name` is no NewType)
 
 
 def _get_name(cls: Any) -> str:
@@ -373,6 +373,9 @@ def _has_required_type_arguments(cls: Any) -> bool:
         >>> _has_required_type_arguments(Callable[[typing.Any], Tuple[typing.Any, ...]],)
         True
     """
+
+    if isinstance(cls, type) and not isinstance(cls, types.GenericAlias):
+        return True  # a plain class is complete whatever it is called (the tables are keyed by the names of the typing generics)
 
     base: str = _get_name(cls=cls)
     num_type_args = len(get_type_arguments(cls=cls))
